@@ -27,6 +27,9 @@ CLAIMS = {
          "Structural necessary conditions of token matching are decided on every path of every registration site: store-if-absent is one critical section, the duplicate edge returns an error without overwriting and without removing the owner's entry, the stored edge removes the same key on all exits (or hands a cleanup to callers that all run it), every table access is keyed by Token().Hash() which checksums the whole token, dispatch is one-shot and the hand-over is a non-blocking send of a hijacked message on the request's own buffered channel. Matching under adversarial response orders is not executed and not claimed.",
          TRUST + "CRC-64 collisions between different tokens are outside the claim.",
          "DESIGN.md §4 C03"),
+ "C04": ("other", "control-dependence / dominance rules on the reassembly and sending code, forced-edge path queries, value-flow of the M flag and block numbers, abstract interpretation of the size clamp on ordering cells",
+         "Structural necessary conditions of exact-once block-wise delivery are decided on every path: a block is copied only at the end of the bytes already held (NUM·size, size read after any truncation), the reassembled message is handed on at exactly one site after a successful last copy and after its entry was deleted, errors delete the entry and are answered with 4.08, the per-token guard is always released, negotiation returns the smaller size, the M flag and the next block number are computed from the real body size / bytes held, a transfer start never skips a buffer, and both caches are keyed by token hashes. Byte-exact delivery over sizes, SZX pairs and fault sequences needs execution and is not claimed.",
+         TRUST, "DESIGN.md §4 C04"),
  "C05": ("other", "dominance / control-dependence and forced-edge path queries on handleReq and processResponse, value-flow of cache keys, constant evaluation",
          "Structural necessary conditions of MID de-duplication are decided on every path: the per-ID lock is keyed by the request's MID, taken before the cache lookup that guards dispatch and released on every exit; a hit cannot reach dispatch and is answered with the duplicate's MID; every reply-producing arm stores the reply, for CON and NON, under the request's MID (both key functions derive from the MID parameter only); lifetime is 247 s from now; the cached bytes are a private copy. Concurrent duplicate schedules are not executed.",
          TRUST, "DESIGN.md §4 C05"),
@@ -37,9 +40,15 @@ CLAIMS = {
          "The structural reasons framing depends only on the concatenated bytes are decided: size limit before waiting and before decoding, no consumption before the frame is complete, decoder gets exactly the announced frame and the buffer advances by the decoder's count, every proper header prefix yields ErrShortRead (abstractly interpreted with symbolic content, 8 header shapes × all prefix lengths) which the loop maps to 'wait', the announced length cannot wrap, reads append exactly what was read, hand-over is synchronous and in order. The quantification over all segmentations is argued from these, not executed.",
          TRUST,
          "DESIGN.md §4 C07"),
+ "C08": ("other", "abstract interpretation of the freshness predicate on relational cells (linear forms s, s±d; interval classes) + lockset / control-dependence rules on the observation state",
+         "The freshness predicate is shown equal to RFC 7641 §3.4 for every old value at and around every boundary distance and for every distance class from old value 0, crossed with the elapsed-time classes (30 cells, all paths); observation state is shown to be touched only under its mutex and written only for accepted notifications; the application callback is shown to be gated by the acceptance test for every message including the first; registration cleanup (error-cell discipline, duplicate keeps the owner) and the 2.05/2.03 success rule, and Cancel's remove-before-deregister order are decided on every path. Arrival histories are not executed.",
+         TRUST, "DESIGN.md §4 C08"),
  "C09": ("other", "inventory of every blocking operation (select / channel op / semaphore / WaitGroup / sleep) classified by the origin of each case's channel, close-once and defer-first path rules, lockset-at-call rule",
          "Liveness on cancel/close is decided as an exhaustive inventory: all 38 selects, 6 semaphore waits, 2 WaitGroup waits and the one sleep of the module are classified; every client-operation wait is shown to have a case on the request context and on the connection/server context (or is listed with the holder that bounds it), an unlisted blocking operation fails. Close is decided structurally: compare-and-swap guards, on-close list popped in one critical section, Run arms Close+shutdown before any return, done completed only by shutdown (called only from Run), Close cancels unconditionally, no Close/callback under a server mutex, requests built on the caller's context. Delay bounds in time are not claimed.",
          TRUST, "DESIGN.md §4 C09"),
+ "C10": ("other", "loop-exit cause analysis of the serve loops, accept-loop purity rule, value-flow of the handshake context and peer key, lockset rule, inventory of explicit panic sites with call-graph reachability, in-range obligations on the decoders",
+         "Decided on every path: the datagram serve loop returns only for listener errors and per-peer errors only close that peer; the stream/DTLS accept loops return only on checkAcceptError and do nothing with an accepted connection except start its goroutine; the DTLS handshake is bounded by the configured timeout; the peer key uses both addresses and get-or-create is one critical section; a rejected duplicate discovery touches nothing of the running one; every explicit panic site is in a triaged table (new ones fail) with CHA/VTA reachability from the receive entry points in the evidence; every index/slice on wire bytes in the decoders is in range. Behavioural isolation between peers and pion/dtls internals are not claimed.",
+         TRUST, "DESIGN.md §4 C10"),
  "C11": ("other", "dominance of the loop-replacement call over each reader-fed wait, who-may-call sets over the type-resolved program, lockset and flag-discipline rules, one-fate path queries",
          "Decided structurally: every wait that only the reader loop can satisfy is dominated by TryToReplaceLoop (also on the Observe path), the per-message dispatch has a single caller and the queue a single consumer, reader state is touched only under its mutex, the loop's flag discipline and the freshness of a replacement loop's channel and flag hold, and each decoded message meets exactly one of release / inline handling / enqueue on every path. Arrival order under nested blocking handlers depends on Go's unprioritised select and is stated as out of reach, not as holding.",
          TRUST, "DESIGN.md §4 C11"),
@@ -50,6 +59,18 @@ CLAIMS = {
          "Leak-freedom is decided as a pairing discipline on every path: each of the 14 registration sites (all that exist – an unclassified new site fails) is removed on every exit, or its cleanup is handed to callers that all run it, or it is stored with a provably set deadline that the sweep (shown to reach every cache and the pending table) removes; deferred error-cell cleanups see the error actually returned; semaphores, endpoint slots and per-ID locks are released on every exit; the per-ID lock map and endpoint queue delete their entries at zero. Table sizes after histories are not measured.",
          TRUST,
          "DESIGN.md §4 C13"),
+ "C15": ("other", "sibling-agreement rules (all consumers of Find, both attempts of every grow-and-retry idiom), failure-atomicity path queries, value-flow rules on the pooled builder's value buffer",
+         "Decided structurally: the upper bound returned by Find is exclusive in all consumers, the retry of every grow-and-retry site repeats the first call with the same non-buffer arguments, no editor mutates the list before reporting ErrTooSmall (one listed exception), option values are slices of the message's own only-advancing value buffer and nothing appends to an existing value, the 255-byte limit and empty-segment handling agree between siblings. Equality with a reference multiset model over operation sequences needs relational loop invariants / execution and is not claimed.",
+         TRUST, "DESIGN.md §4 C15"),
+ "C16": ("other", "lock-context rule for queue state, forced-edge pairing queries (release only after success), guard-dominance of counter updates, structural FIFO / order-preserving-removal / cancel-identity rules",
+         "Decided on every path: queue state is touched only inside map-locked callbacks; endpoint slots and the total-limit semaphore are released by defer exactly on the successful-acquisition edge and never on the failed one; the counter grows only under counter < limit and shrinks only when no waiter takes over; waiters are appended, admitted from the front and removed order-preservingly; the cancel path identifies the waiter by its own channel and gives a slot back only if it had been admitted; a waiter channel is closed exactly where a slot is granted. Event orders are not explored.",
+         TRUST, "DESIGN.md §4 C16"),
+ "C17": ("other", "must-hold lockset rule over all Router methods, value-flow of literal path pieces through QuoteMeta into the anchored buffer, forced-edge path queries on the selection, loop-exit analysis",
+         "Decided: the route table and default handler are accessed only under the router lock (data-race freedom on every path), the compiled pattern is ^…$ with every literal piece quoted, a route becomes the candidate only after matching and only if strictly longer, the scan has no early exit, no match selects the default handler, one handler invocation per path, middlewares wrap in reverse order. Regexp semantics and variable extraction need execution.",
+         TRUST, "DESIGN.md §4 C17"),
+ "C18": ("other", "dominance of Notify over all handling on both receive paths, structural predicate rules, value-flow of the housekeeping time, guard-dominance rules of the keep-alive protocol, who-may-call sets",
+         "Decided: every non-dropped received message refreshes the activity timestamp before it is handled; the monitor fires exactly on now.After(last+period); housekeeping uses the tick's own time (one open finding: +10 ms in the datagram server); keep-alive closes only on incremented fails > maxRetries, cancels the superseded ping, numbers every ping and credits a pong only to the current generation, with per-connection state; who may reset the failure count (open finding: only the pong). Histories against a virtual clock are not executed.",
+         TRUST + "Known findings D13, D19 are listed in known_findings.json.", "DESIGN.md §4 C18"),
  "C19": ("proof", "abstract interpretation of the codec on go/ssa (intervals × per-bit provenance × linear forms) over symbolic inputs + constant-table evaluation",
          "The whole statement is decided for the whole domain without enumerating it: DecodeBlockOption/EncodeBlockOption are abstractly interpreted on symbolic 24-/32-bit inputs; acceptance/refusal is shown per input cell on every abstract path and the results' bits are shown to be exactly the RFC 7959 fields (so the two functions are mutual inverses), with no wrap or lossy conversion on the legal domain; the SZX size table is evaluated from the literal, shown single-writer, and BERT sizing is shown to be floor(max/1024)*1024.",
          TRUST + "The abstract transfer functions (sound for Go fixed-width integers) are trusted. BERT sizing for max < 1024 is outside the claim.",
